@@ -19,8 +19,14 @@ use nom::multi::many0;
 use nom_derive::*;
 use serde::Serialize;
 
+#[cfg(not(any(kani, netflow_parser_verif)))]
 use std::collections::BTreeMap;
+#[cfg(not(any(kani, netflow_parser_verif)))]
 use std::collections::HashMap;
+#[cfg(any(kani, netflow_parser_verif))]
+use crate::verif_shim::VMap as BTreeMap;
+#[cfg(any(kani, netflow_parser_verif))]
+use crate::verif_shim::VMap as HashMap;
 
 const TEMPLATE_ID: u16 = 0;
 const OPTIONS_TEMPLATE_ID: u16 = 1;
